@@ -163,7 +163,7 @@ func c17Corpus() []any {
 	cat := func(a []c17Item, b ...c17Item) []c17Item { return append(append([]c17Item{}, a...), b...) }
 	return []any{
 		mk(20, cat([]c17Item{B(0), B(10), G(3, 1.5, 1), B(10), G(3, 1.5, 1), B(10)}, fin...)...),
-		mk(5, cat([]c17Item{B(0), B(10), G(3, 1.5, 1), B(10)}, fin...)...),                // overflow: words wider than the line
+		mk(5, cat([]c17Item{B(0), B(10), G(3, 1.5, 1), B(10)}, fin...)...),                   // overflow: words wider than the line
 		mk(25, cat([]c17Item{B(0), B(10), G(3, 0, 0), B(10), G(3, 0, 0), B(10)}, fin...)...), // rigid glue
 		mk(30, cat([]c17Item{B(0), B(8), P(2, 50, true), B(8), G(3, 1.5, 1), B(8), P(2, 50, true), B(8), G(3, 1.5, 1), B(9)}, fin...)...),
 	}
